@@ -33,6 +33,11 @@ def blocks(tier, seed, prop='C01'):
         tx = MAIN_TX[r]
         for cfg, cn in ((E.Cfg(exception=None, misc=0), 'm0'), (E.Cfg(exception=None, misc=1, min_length=5, max_length=12), 'm1-5-12')):
             out.append((f'D1/{r}/{cn}', E.d1_cases(r, tx, cfg), dict(deviations=1)))
+    # CFG-alt: alternative-translation forms (Sec termination, W>F) on the selenoprotein reference and on R1
+    for r, fl, cn in (('R6', ('--selenocysteine-termination',), 'sect'), ('R6', ('--w2f-reassignment',), 'w2f'),
+                      ('R6', ('--selenocysteine-termination', '--w2f-reassignment'), 'sect+w2f'),
+                      ('R1', ('--w2f-reassignment',), 'w2f')):
+        out.append((f'D1/{r}/{cn}', E.d1_cases(r, MAIN_TX[r], E.Cfg(exception=None, flags=fl)), dict(deviations=1, flags=list(fl))))
     # D2: all pairs within 9 nt; quick = seed-selected complete windows, thorough = all windows
     for r in ('R1', 'R3', 'R2'):
         tx = MAIN_TX[r]
@@ -246,6 +251,7 @@ def case_from_replay(r):
     cfgd = dict(c['cfg'])
     for k in ('flags', 'mvpn', 'avpm'):
         cfgd[k] = tuple(cfgd[k])
+    cfgd.setdefault('order_salt', 0)
     if cfgd.get('collapse'):
         cfgd['collapse'] = tuple(cfgd['collapse'])
     return E.Case(c['ref'], small=tuple(CV.Var(**v) for v in c['small']),
